@@ -97,6 +97,16 @@ def run(ctx, prop=PROP, judge=judge_c04, title="peak connections in flight <= fa
         ru = eng.run(["-R", "sim", "-f", str(f), "-w", "h[0-%d]" % (n - 1), "cmd"], hosts, seed=r.next() % (1 << 31), spur=r.choice([0, 1]),
                      nofile=r.choice([36, 40, 41]))
         runs.append((ru, n, f))
+    # small scope, exhaustively: every schedule that deviates at most `depth` times from the scheduler's base policy
+    # (another thread, a spurious wake-up or a clock tick at any choice point) for small target counts
+    pbstat = {}
+    for (n, f, depth) in ([(2, 1, 1), (3, 2, 1), (3, 1, 1)] if quick else [(2, 1, 2), (2, 2, 2), (3, 1, 2), (3, 2, 2), (4, 2, 1), (4, 3, 1)]):
+        hosts = [("h%d" % i, "o", "A" + (b"o%d\n" % i).hex(), "-", 0) for i in range(n)]
+        pr = schedeng.explore_pb(eng, ["-R", "sim", "-f", str(f), "-w", "h[0-%d]" % (n - 1), "cmd"], hosts, depth, spur=1,
+                                 max_runs=3000 if quick else 150000)
+        pbstat["n=%d f=%d depth=%d" % (n, f, depth)] = len(pr)
+        for ru in pr:
+            runs.append((ru, n, f))
     recheck = detect_recheck()
     for ru, n, f in runs:
         cases.append("disp %d %d %d %s" % (n, f, 1, " ".join(ru.model_events())))
@@ -129,7 +139,8 @@ def run(ctx, prop=PROP, judge=judge_c04, title="peak connections in flight <= fa
     cov = vlib.proof_coverage(ctx, {
         "evaluations": len(runs), "distinct_nontrivial": len(set(c for c in cases if len(c) > 60)),
         "traces_validated_against_impl": nacc,
-        "rule": "runs of the whole unmodified pdsh program (all sources, main renamed) under a token scheduler interposed at link time on pthread_*/poll/read/sleep/time/fputs/exit, with a scripted transport module loaded by pdsh's own loader; N in 1..9 targets, fanout 1..N+1, seeded random schedules with 0-4 spurious condition-variable wake-ups; each trace must be a run of the Coq transition system and is judged for: " + title + "; distinct = distinct event trace",
+        "rule": "runs of the whole unmodified pdsh program (all sources, main renamed) under a token scheduler interposed at link time on pthread_*/poll/read/sleep/time/fputs/exit, with a scripted transport module loaded by pdsh's own loader; N in 1..9 targets, fanout 1..N+1, seeded random schedules with 0-4 spurious condition-variable wake-ups, plus for small N every schedule with a bounded number of deviations from the base policy (another thread, a spurious wake-up or a clock tick at any choice point); each trace must be a run of the Coq transition system and is judged for: " + title + "; distinct = distinct event trace",
+        "exhaustive_bounded_deviation_schedules": pbstat,
         "samples": samples, "input_distribution": dict(dist, spurious_wakeups_injected=nspur), "corpus_cases": len(corpus), "disagreements": bad})
     return ctx.finish(cov, ["interleavings at the granularity of the wrapped calls (a data race between two plain loads/stores is invisible)",
                             "POSIX semantics of mutex/condvar implemented by the scheduler (spurious wake-ups included)",
